@@ -1,4 +1,5 @@
 import Thanos.Model.ReadPath
+import Thanos.Lemmas.ReadPath
 /-
   C04 — Deduplicated queries return each logical series once with replica data.
 
@@ -23,23 +24,74 @@ def IdenticalReplicas (S : List Sample) (l : RSeries) : Prop :=
 def DisjointCuts (l : RSeries) : Prop :=
   ∀ r ∈ l.reps, r.chunks.Pairwise fun c d => c.samples = d.samples ∨ c.maxt < d.mint ∨ d.maxt < c.mint
 
-def SSortedS (l : List Sample) : Prop := l.Pairwise (fun x y => x.t < y.t)
-
 /-- C04 (dedup on) at full strength: identical replicas ⇒ the deduplicated series, inside the
     query range, is exactly `S` inside the query range (`SelectHints` are hints: the returned
     series may also carry samples of `S` outside the range). -/
 def C04_dedup_on : Prop :=
   ∀ (l : RSeries) (S : List Sample) (qmint qmaxt : Int),
-    SSortedS S → (∀ x ∈ S, 1 ≤ x.t) → IdenticalReplicas S l →
+    SSorted S → (∀ x ∈ S, 1 ≤ x.t) → IdenticalReplicas S l →
     ∀ out, selectDedup true qmint qmaxt l = some out →
       ∃ o, out = some o ∧ o.filter (inQuery qmint qmaxt) = S.filter (inQuery qmint qmaxt)
 
 /-- the part of C04 that is expected to hold: replicas whose own chunks do not overlap in time -/
 def C04_dedup_on_partial : Prop :=
   ∀ (l : RSeries) (S : List Sample) (qmint qmaxt : Int),
-    SSortedS S → (∀ x ∈ S, 1 ≤ x.t) → IdenticalReplicas S l → DisjointCuts l →
+    SSorted S → (∀ x ∈ S, 1 ≤ x.t) → IdenticalReplicas S l → DisjointCuts l →
     ∀ out, selectDedup true qmint qmaxt l = some out →
       ∃ o, out = some o ∧ o.filter (inQuery qmint qmaxt) = S.filter (inQuery qmint qmaxt)
+
+/-- C04 (dedup off): a replica whose chunks are cuts of `S` (overlapping or not, on any stores) is
+    returned with exactly the samples of `S` in the query range -/
+def C04_dedup_off : Prop :=
+  ∀ (r : RReplica) (S : List Sample) (qmint qmaxt : Int),
+    SSorted S → (∀ x ∈ S, 1 ≤ x.t) → (∀ c ∈ r.chunks, CutOf S c) → (∀ x ∈ S, ∃ c ∈ r.chunks, x ∈ c.samples) →
+    ∀ out, selectRaw qmint qmaxt r = some out →
+      ∃ o, out = some o ∧ o.filter (inQuery qmint qmaxt) = S.filter (inQuery qmint qmaxt)
+
+/-! ### proved building blocks of the composition
+
+  `C04_dedup_on_partial` and `C04_dedup_off` are stated above and checked differentially against
+  the real querier on every run, but not proved: what is missing is (i) that the rows
+  `overlapSplit` builds from contiguous, per-replica disjoint cuts of one sequence are gap-free
+  (DESIGN's non-obvious lemma), (ii) `boundedSeriesIterator` as a side of the dedup node is not
+  list-like (its `Seek` does not enforce `maxt`), so `node_listLike` does not apply directly, and
+  (iii) that the union of the proxy's sorted cuts is the sequence itself.  Proved: -/
+
+/-- `dedup.NewOverlapSplit` partitions the chunks into non-empty, time-ordered, non-overlapping rows -/
+theorem C04_overlapSplit_partition (cs : List RChunk) :
+    (∀ row ∈ overlapSplit cs, RowOK row ∧ row ≠ []) ∧ (overlapSplit cs).flatten.Perm cs :=
+  overlapSplit_partition cs
+
+/-- `query.chunkSeriesIterator` (Next and Seek calling each other, transliterated with fuel) over a row
+    of non-empty chunks yields the first chunk and then, from every later chunk, the samples after
+    the last one yielded; it is list-like (`cs_listLike`), i.e. fit to be a side of the dedup node -/
+theorem C04_chunkIter_union (c : List Sample) (cs : List (List Sample)) (hc : ChunkOK c)
+    (hcs : ∀ d ∈ cs, ChunkOK d) : drain (csIt c cs) = unionFrom 0 (c :: cs) :=
+  cs_drain c cs hc hcs
+
+/-- … which is strictly increasing when each chunk is time-sorted -/
+theorem C04_chunkIter_increasing (c : List Sample) (cs : List (List Sample)) (hc : ChunkOK c)
+    (hcs : ∀ d ∈ cs, ChunkOK d) (hs : ∀ d ∈ c :: cs, SSorted d) : SSorted (drain (csIt c cs)) := by
+  rw [cs_drain c cs hc hcs]
+  exact (unionFrom_sorted hs).1
+
+/-- … and is just the concatenation of the chunks on a row without overlaps (a virtual replica) -/
+theorem C04_row_concat (c : List Sample) (cs : List (List Sample)) (hc : ChunkOK c)
+    (hcs : ∀ d ∈ cs, ChunkOK d) (hs : ∀ d ∈ c :: cs, SSorted d) (hd : RowDisjoint (c :: cs)) :
+    drain (csIt c cs) = (c :: cs).flatten := by
+  rw [cs_drain c cs hc hcs]
+  apply unionFrom_disjoint
+  · intro d hd'
+    rcases List.mem_cons.mp hd' with rfl | hd'
+    · exact ⟨hc.1, hs _ (by simp)⟩
+    · exact ⟨(hcs d hd').1, hs d (by simp [hd'])⟩
+  · exact hd
+  · intro d hd' x hx
+    simp at hd'; subst hd'
+    have := hc.2 x hx; omega
+
+example : drain (csIt [⟨10, 1⟩, ⟨20, 2⟩, ⟨30, 3⟩] [[⟨20, 2⟩, ⟨30, 3⟩, ⟨40, 4⟩], [⟨35, 9⟩, ⟨50, 5⟩]])
+    = [⟨10, 1⟩, ⟨20, 2⟩, ⟨30, 3⟩, ⟨40, 4⟩, ⟨50, 5⟩] := by decide
 
 /-! ### F04: overlapping chunks inside a replica make the penalty window swallow samples -/
 
@@ -81,7 +133,7 @@ theorem C04_witness_identical : IdenticalReplicas f04S f04Witness := by
 
 theorem C04_full_false : ¬ C04_dedup_on := by
   intro h
-  obtain ⟨o, ho, hf⟩ := h f04Witness f04S 1 200000 (by simp [SSortedS, f04S]) (by
+  obtain ⟨o, ho, hf⟩ := h f04Witness f04S 1 200000 (by simp [SSorted, f04S]) (by
     intro x hx
     simp only [f04S, List.mem_cons, List.mem_nil_iff, or_false] at hx
     rcases hx with rfl | rfl | rfl | rfl <;> decide) C04_witness_identical _ C04_witness_run
